@@ -63,7 +63,7 @@ def expected_exc(fault):
     return type(e).__name__, str(e), list(getattr(e, "__notes__", []))
 
 
-def gen_case(rng, mode, groups=None, fault_pos=None, steps=None, nruns=None, no_fault=False, two=None):
+def gen_case(rng, mode, groups=None, fault_pos=None, steps=None, nruns=None, no_fault=False, two=None, obs_mode=None):
     groups = groups or gen_pipeline(rng)
     steps = steps or rng.choice([1, 2, 3])
     sched = schedule(groups)
@@ -75,9 +75,14 @@ def gen_case(rng, mode, groups=None, fault_pos=None, steps=None, nruns=None, no_
         two = (rng.random() < 0.35) if two is None else two
         case["levels"] = [10 * (i + 1) for i in range(nruns)]
         case["levels2"] = [1, 2] if two else None
-    nr = 1
-    if mode in ("sequential", "parallel"):
-        nr = len(case["levels"]) * (2 if case["levels2"] else 1)
+        # the observation's parameter mode: Cartesian product / one parameter at a time over the defaults / one run per
+        # row of a table file
+        case["obs_mode"] = obs_mode or rng.choice(["product", "product", "sequential", "custom"])
+        if case["obs_mode"] == "custom":
+            case["rows"] = [[a, (case["levels2"][i % 2] if two else 0)] for i, a in enumerate(case["levels"])]
+            if two and rng.random() < 0.5:
+                case["rows"].append([case["levels"][0] + 5, case["levels2"][1]])
+    nr = len(run_params(case))
     case["nruns"] = nr
     if fault_pos is None and not no_fault:
         fault_pos = None if rng.random() < 0.12 else (rng.randrange(nr), rng.randrange(steps), rng.randrange(len(sched)))
@@ -95,8 +100,42 @@ def run_params(case):
     """parameter values of every run in execution order: [(level, level2)]"""
     if case["mode"] not in ("sequential", "parallel"):
         return [(0, 0)]
+    om = case.get("obs_mode", "product")
+    if om == "sequential":
+        return [(a, 0) for a in case["levels"]] + [(0, b) for b in (case["levels2"] or [])]
+    if om == "custom":
+        return [(a, b) for a, b in case["rows"]]
     l2 = case["levels2"] or [0]
     return [(a, b) for a in case["levels"] for b in l2]
+
+
+def run_pairs(case):
+    """per run: the (key, value) pairs that are this run's parameters (what the statement wants reported)"""
+    k1, k2 = swept_keys(case)
+    om = case.get("obs_mode", "product")
+    out = []
+    for a, b in run_params(case):
+        if om == "sequential":
+            out.append([(k1, a)] if a != 0 else [(k2, b)])
+        else:
+            out.append([(k1, a)] + ([(k2, b)] if case["levels2"] else []))
+    return out
+
+
+def observation_spec(case, folder):
+    """mode / parameters / table of the observation, for the Python API and for a YAML document"""
+    k1, k2 = swept_keys(case)
+    om = case.get("obs_mode", "product")
+    if om == "custom":
+        import numpy as np
+
+        ncol = 2 if case["levels2"] else 1
+        path = folder + "/table.txt"
+        np.savetxt(path, np.array([row[:ncol] for row in case["rows"]], dtype=float).reshape(-1, ncol))
+        params = [{"key": k1, "values": "_"}] + ([{"key": k2, "values": "_"}] if case["levels2"] else [])
+        return {"mode": "custom", "parameters": params, "from_file": path, "column_range": [0, ncol]}
+    params = [{"key": k1, "values": list(case["levels"])}] + ([{"key": k2, "values": list(case["levels2"])}] if case["levels2"] else [])
+    return {"mode": om, "parameters": params}
 
 
 # ------------------------------------------------------------------ implementation side
@@ -127,7 +166,8 @@ def build_pipeline(case, extra_first=None):
         lv = run_params(case)[f["run"]]
         plan = {"id": f["id"], "step": f["step"], "exc": f["exc"], "msg": f["msg"], "note": f["note"],
                 "level": lv[0] if case["mode"] in ("sequential", "parallel") else None,
-                "level2": lv[1] if (case["mode"] in ("sequential", "parallel") and case["levels2"]) else None,
+                "level2": lv[1] if (case["mode"] in ("sequential", "parallel")
+                                    and (case["levels2"] or case.get("obs_mode") == "sequential")) else None,
                 "nth": f.get("nth"), "model_seed": f.get("model_seed"), "token": _TOKEN["run"]}
         if plan["nth"] is not None:
             plan["step"] = None
@@ -196,12 +236,13 @@ def run_impl(case):
         from pyxel.exposure import Readout
         from pyxel.observation import Observation, ParameterValues
 
-        k1, k2 = swept_keys(case)
-        params = [ParameterValues(key=k1, values=list(case["levels"]))]
-        if case["levels2"]:
-            params.append(ParameterValues(key=k2, values=list(case["levels2"])))
-        obs = Observation(parameters=params, readout=Readout(times=times), mode="product", with_dask=(mode == "parallel"),
-                          pipeline_seed=case.get("pipeline_seed"))
+        obs_tmp = tempfile.mkdtemp(prefix="c09-")
+        spec = observation_spec(case, obs_tmp)
+        extra = {"from_file": spec["from_file"], "column_range": tuple(spec["column_range"])} if spec["mode"] == "custom" else {}
+        obs = Observation(parameters=[ParameterValues(key=p["key"], values=p["values"]) for p in spec["parameters"]],
+                          readout=Readout(times=times), mode=spec["mode"], with_dask=(mode == "parallel"),
+                          pipeline_seed=case.get("pipeline_seed"), **extra)
+        shutil.rmtree(obs_tmp, ignore_errors=True)  # the table is read when the observation is built
         pipe = build_pipeline(case)
         if mode == "parallel" and case.get("writer"):
             from pyxel.pipelines import ModelFunction
@@ -311,9 +352,8 @@ def yaml_document(case, times, tmp):
         if case.get("pipeline_seed") is not None:
             section["exposure"]["pipeline_seed"] = case["pipeline_seed"]
     elif mode == "sequential":
-        k1, k2 = swept_keys(case)
-        params = [{"key": k1, "values": list(case["levels"])}] + ([{"key": k2, "values": list(case["levels2"])}] if case["levels2"] else [])
-        section = {"observation": {"mode": "product", "with_dask": False, "parameters": params, "readout": {"times": times}}}
+        spec = observation_spec(case, tmp)
+        section = {"observation": {**spec, "with_dask": False, "readout": {"times": times}}}
         if case.get("pipeline_seed") is not None:
             section["observation"]["pipeline_seed"] = case["pipeline_seed"]
     else:
@@ -399,8 +439,7 @@ def lean_request(case):
         runs.append(steps)
     req = {"mode": case["mode"], "runs": runs}
     if case["mode"] == "sequential":
-        k1, k2 = swept_keys(case)
-        req["params"] = [[[repr(k1), repr(a)]] + ([[repr(k2), repr(b)]] if case["levels2"] else []) for a, b in run_params(case)]
+        req["params"] = [[[repr(k), repr(v)] for k, v in pairs] for pairs in run_pairs(case)]
     if case["mode"] == "parallel":
         req["sigma"] = list(range(case["nruns"]))
     return req
@@ -419,12 +458,20 @@ def _names_model(text, g, name):
 
 
 def _names_param(text, key, val):
-    """does this text give parameter `key` the value `val`?  (`…level` must not match `…level2`)"""
+    """does this text give parameter `key` the value `val`?  The value is the first number that follows the key on
+    its line, however it is written (`'key': 10`, `key = 10.0`, `key: np.float64(10.0) (index 1)`); `…level` must
+    not match `…level2`."""
     import re
 
     for m in re.finditer(re.escape(key) + r"(?![A-Za-z0-9_])", text):
-        if repr(val) in text[m.end():].split("\n")[0]:
-            return True
+        rest = text[m.end():].split("\n")[0]
+        tok = re.search(r"(?<![\w.])-?\d+(?:\.\d*)?(?:[eE][+-]?\d+)?(?![\w])", rest)
+        if tok:
+            try:
+                if float(tok.group(0)) == float(val):
+                    return True
+            except ValueError:
+                pass
     return False
 
 
@@ -447,11 +494,9 @@ def check_exc(case, err, need_type=True, need_params=False, where=""):
         if not _names_model(text, g, name):
             return f"{where}group/model of the failing model do not reach the caller"
     if need_params:
-        k1, k2 = swept_keys(case)
-        a, b = run_params(case)[f["run"]]
-        for key, val in [(k1, a)] + ([(k2, b)] if case["levels2"] else []):
+        for key, val in run_pairs(case)[f["run"]]:
             if not any(_names_param(n, key, val) for n in err["notes"]):
-                return f"{where}parameter {key} = {val!r} of the failing run is not in the notes: {err['notes']}"
+                return f"PARAMS:{where}parameter {key} = {val!r} of the failing run ({case.get('obs_mode', 'product')} mode) is given by no note: {err['notes']}"
     return None
 
 
@@ -470,6 +515,8 @@ def property_predicate(case, impl):
         if "ok" in res:
             return ("C09:fault-swallowed", f"model {f['id']} raised {f['exc']} at run {f['run']} step {f['step']} but {mode} returned a {res['ok']}")
         why = check_exc(case, res["err"], need_type=True, need_params=(mode == "sequential"))
+        if why and why.startswith("PARAMS:"):
+            return ("C09:parameters-not-reported", why[len("PARAMS:"):])
         if why:
             return ("C09:identity-lost", why)
         cut = flat[: flat.index([f["run"], f["step"], f["pos"]]) + 1]
@@ -522,9 +569,13 @@ def canon_err(err, case=None):
     sched = schedule(case["groups"])
     keys = []
     if case["mode"] in ("sequential", "parallel"):
-        k1, k2 = swept_keys(case)
-        vals1 = list(case["levels"])
-        keys = [(k1, vals1)] + ([(k2, list(case["levels2"]))] if case["levels2"] else [])
+        seen = {}
+        for pairs in run_pairs(case):
+            for k, v in pairs:
+                seen.setdefault(k, [])
+                if v not in seen[k]:
+                    seen[k].append(v)
+        keys = list(seen.items())
     out = []
     for n in err["notes"]:
         if n in own:
@@ -617,6 +668,8 @@ def body(ck: common.Check):
         impl = run_impl(case)
         ck.case(case, nontrivial=case["fault"] is not None, stream=stream)
         ck.count("mode=" + case["mode"])
+        if case.get("obs_mode"):
+            ck.count("parameter_mode=" + case["obs_mode"] + ("/dask" if case["mode"] == "parallel" else ""))
         ck.count("pipeline_seed=" + ("none" if case.get("pipeline_seed") is None else "set"))
         if case["fault"] and case["fault"].get("model_seed") is not None:
             ck.count("fault_inside_model_seed_region")
@@ -685,7 +738,7 @@ def body(ck: common.Check):
         pv = property_predicate(c, impl)
         if pv:
             ck.violation(pv[0], pv[1], {"case": c, "impl": impl})
-    ck.rule = ("pipelines of 1-3 groups x 1-3 models (some disabled), 1-3 readout steps; exposure, sequential observation over 2-3 values "
+    ck.rule = ("pipelines of 1-3 groups x 1-3 models (some disabled), 1-3 readout steps; exposure, sequential observation over 2-3 values in product / sequential / custom (table file) parameter mode "
                "(x 2 values of a second parameter), the same through the file entry point pyxel.run(<yaml>) with and without an outputs section (exposure, sequential observation, calibration), parallel observation (threads; every class at a run inside the dask graph and at the eager first run, with and without float/integer buckets written), calibration (sade / sga / nlopt; fault at an evaluation of the "
                f"initial population or of an evolution); {len(EXCS)} exception classes (incl. StopIteration, warnings, MemoryError), odd constructors / custom __str__, messages with newlines, "
                "unicode, empty; with and without a declared pipeline seed (incl. 0) and with the failing model raising inside its own seeded region; a fault at EVERY (run, step, position) of small pipelines + random positions + fault-free runs; "
